@@ -82,7 +82,8 @@ Record client := {
 Definition sendrec := (N * frame * option N)%type.
 
 Record state := {
-  st_now : N;
+  st_now : N;                       (* the monotonic clock (what a fresh Clock read returns) *)
+  st_wake : N;                      (* SelectServer::WakeUpTime(): clock value when the current loop iteration started *)
   st_next : N;                      (* next request id handed out by the harness *)
   st_cl : N -> client;
   st_sv : server;
@@ -193,24 +194,30 @@ Definition client_removed (sv : server) (c : N) : server :=
      sv_alive := updf (sv_alive sv) c false |}.
 
 Definition set_cl (st : state) (c : N) (k : client) : state :=
-  {| st_now := st_now st; st_next := st_next st; st_cl := updf (st_cl st) c k; st_sv := st_sv st; st_pend := st_pend st; st_busy := st_busy st;
+  {| st_now := st_now st; st_wake := st_wake st; st_next := st_next st; st_cl := updf (st_cl st) c k; st_sv := st_sv st; st_pend := st_pend st; st_busy := st_busy st;
      st_hz := st_hz st; st_done := st_done st; st_issued := st_issued st; st_sent := st_sent st;
      st_applied := st_applied st |}.
 Definition set_sv (st : state) (sv : server) : state :=
-  {| st_now := st_now st; st_next := st_next st; st_cl := st_cl st; st_sv := sv; st_pend := st_pend st; st_busy := st_busy st;
+  {| st_now := st_now st; st_wake := st_wake st; st_next := st_next st; st_cl := st_cl st; st_sv := sv; st_pend := st_pend st; st_busy := st_busy st;
      st_hz := st_hz st; st_done := st_done st; st_issued := st_issued st; st_sent := st_sent st;
      st_applied := st_applied st |}.
 Definition set_hz (st : state) : state :=
-  {| st_now := st_now st; st_next := st_next st; st_cl := st_cl st; st_sv := st_sv st; st_pend := st_pend st; st_busy := st_busy st;
+  {| st_now := st_now st; st_wake := st_wake st; st_next := st_next st; st_cl := st_cl st; st_sv := st_sv st; st_pend := st_pend st; st_busy := st_busy st;
      st_hz := true; st_done := st_done st; st_issued := st_issued st; st_sent := st_sent st;
      st_applied := st_applied st |}.
 
+(* the event loop starts a new iteration: the wake-up time is refreshed from the clock *)
+Definition wake_up (st : state) : state :=
+  {| st_now := st_now st; st_wake := st_now st; st_next := st_next st; st_cl := st_cl st; st_sv := st_sv st;
+     st_pend := st_pend st; st_busy := st_busy st; st_hz := st_hz st; st_done := st_done st;
+     st_issued := st_issued st; st_sent := st_sent st; st_applied := st_applied st |}.
+
 Definition set_pend (st : state) (l : list N) : state :=
-  {| st_now := st_now st; st_next := st_next st; st_cl := st_cl st; st_sv := st_sv st; st_pend := l;
+  {| st_now := st_now st; st_wake := st_wake st; st_next := st_next st; st_cl := st_cl st; st_sv := st_sv st; st_pend := l;
      st_busy := st_busy st; st_hz := st_hz st; st_done := st_done st; st_issued := st_issued st;
      st_sent := st_sent st; st_applied := st_applied st |}.
 Definition set_busy (st : state) (b : bool) : state :=
-  {| st_now := st_now st; st_next := st_next st; st_cl := st_cl st; st_sv := st_sv st; st_pend := st_pend st;
+  {| st_now := st_now st; st_wake := st_wake st; st_next := st_next st; st_cl := st_cl st; st_sv := st_sv st; st_pend := st_pend st;
      st_busy := b; st_hz := st_hz st; st_done := st_done st; st_issued := st_issued st;
      st_sent := st_sent st; st_applied := st_applied st |}.
 
@@ -255,7 +262,7 @@ Definition clamp_prio (p : option N) : N :=
 (* DMXReceived + SourceClientDataChanged; the universe is known to exist *)
 Definition apply_dmx (st : state) (c : N) (x : univ) (d : frame) (p : option N) : state :=
   let sv := st_sv st in
-  let src := {| s_data := dmx_set d; s_ts := st_now st; s_prio := clamp_prio p |} in
+  let src := {| s_data := dmx_set d; s_ts := st_wake st; s_prio := clamp_prio p |} in
   let cd := cd_set (sv_cdata sv) (c, u_id x) src in
   (* AddSourceClient: STLReplace(&m_source_clients, client, false) *)
   let srcs := if src_memb c (u_srcs x)
@@ -267,7 +274,7 @@ Definition apply_dmx (st : state) (c : N) (x : univ) (d : frame) (p : option N) 
   let sv2 := {| sv_unis := set_uni (sv_unis sv) x2; sv_gc := sv_gc sv; sv_prefs := sv_prefs sv;
                 sv_cdata := cd; sv_alive := sv_alive sv |} in
   let st2 := set_sv st sv2 in
-  let st3 := {| st_now := st_now st2; st_next := st_next st2; st_cl := st_cl st2; st_sv := st_sv st2; st_pend := st_pend st2; st_busy := st_busy st2;
+  let st3 := {| st_now := st_now st2; st_wake := st_wake st2; st_next := st_next st2; st_cl := st_cl st2; st_sv := st_sv st2; st_pend := st_pend st2; st_busy := st_busy st2;
                 st_hz := st_hz st2; st_done := st_done st2; st_issued := st_issued st2;
                 st_sent := st_sent st2; st_applied := st_applied st2 ++ [(c, (u_id x, d, p))] |} in
   if changed then update_dependants st3 x2 else st3.
@@ -370,7 +377,7 @@ Fixpoint out_take (rid : N) (l : list (N * kind)) : option (kind * list (N * kin
   end.
 
 Definition add_done (st : state) (rid : N) : state :=
-  {| st_now := st_now st; st_next := st_next st; st_cl := st_cl st; st_sv := st_sv st; st_pend := st_pend st; st_busy := st_busy st;
+  {| st_now := st_now st; st_wake := st_wake st; st_next := st_next st; st_cl := st_cl st; st_sv := st_sv st; st_pend := st_pend st; st_busy := st_busy st;
      st_hz := st_hz st; st_done := st_done st ++ [rid]; st_issued := st_issued st; st_sent := st_sent st;
      st_applied := st_applied st |}.
 
@@ -436,7 +443,7 @@ Definition cli_step (st : state) (c : N) : state * N * list event :=
 Definition issue (st : state) (c : N) (kd : kind) (mk : N -> req) (nc : event) : state * list event :=
   let k := st_cl st c in
   let rid := st_next st in
-  let st1 := {| st_now := st_now st; st_next := rid + 1; st_cl := st_cl st; st_sv := st_sv st; st_pend := st_pend st; st_busy := st_busy st;
+  let st1 := {| st_now := st_now st; st_wake := st_wake st; st_next := rid + 1; st_cl := st_cl st; st_sv := st_sv st; st_pend := st_pend st; st_busy := st_busy st;
                 st_hz := st_hz st; st_done := st_done st; st_issued := st_issued st ++ [(c, rid)];
                 st_sent := st_sent st; st_applied := st_applied st |} in
   if k_closed k then (add_done st1 rid, [nc])     (* m_connected == false: completes at once *)
@@ -444,7 +451,7 @@ Definition issue (st : state) (c : N) (kd : kind) (mk : N -> req) (nc : event) :
                         k_s2c := k_s2c k |}, []).
 
 Definition log_sent (st : state) (c : N) (r : sendrec) : state :=
-  {| st_now := st_now st; st_next := st_next st; st_cl := st_cl st; st_sv := st_sv st; st_pend := st_pend st; st_busy := st_busy st;
+  {| st_now := st_now st; st_wake := st_wake st; st_next := st_next st; st_cl := st_cl st; st_sv := st_sv st; st_pend := st_pend st; st_busy := st_busy st;
      st_hz := st_hz st; st_done := st_done st; st_issued := st_issued st;
      st_sent := st_sent st ++ [(c, r)]; st_applied := st_applied st |}.
 
@@ -479,7 +486,9 @@ Inductive op :=
 | OSend (acked raw : bool) (c u : N) (p : option N) (d : frame)
 | OFetch (c u : N) | OReg (c u : N) (on : bool) | OMode (c u : N) (h : bool)
 | OName (c u : N) (nm : list N) | OInfo (c u : N) | OPatch (c u : N)
-| ODisc (c : N) | OTick (dt : N) | OHK | OSrv (c : N) | OCli (c : N).
+| ODisc (c : N) | OTick (dt : N) | OHK | OSrv (c : N) | OCli (c : N)
+| OJump (dt : N)        (* the clock advances while the loop is busy: no new iteration, wake-up time kept *)
+| OSrvSame (c : N).     (* another descriptor dispatched in the SAME loop iteration as the previous one *)
 
 Definition step (st : state) (o : op) : state * N * list event :=
   match o with
@@ -514,11 +523,17 @@ Definition step (st : state) (o : op) : state * N * list event :=
     let k := st_cl st c in
     (set_cl st c {| k_closed := true; k_out := k_out k; k_c2s := k_c2s k; k_s2c := k_s2c k |}, 4, [])
   | OTick dt =>
-    ({| st_now := st_now st + dt; st_next := st_next st; st_cl := st_cl st; st_sv := st_sv st; st_pend := st_pend st; st_busy := st_busy st;
+    ({| st_now := st_now st + dt; st_wake := st_now st + dt; st_next := st_next st; st_cl := st_cl st; st_sv := st_sv st; st_pend := st_pend st; st_busy := st_busy st;
         st_hz := st_hz st; st_done := st_done st; st_issued := st_issued st; st_sent := st_sent st;
         st_applied := st_applied st |}, 4, [])
-  | OHK => (set_sv st (housekeeping (st_sv st)), 4, [])
-  | OSrv c => let '(st1, t) := srv_step st c in (st1, t, [])
+  | OHK => let st0 := wake_up st in (set_sv st0 (housekeeping (st_sv st0)), 4, [])
+  | OSrv c => let '(st1, t) := srv_step (wake_up st) c in (st1, t, [])
+  | OSrvSame c => let '(st1, t) := srv_step st c in (wake_up st1, t, [])
+  | OJump dt =>
+    ({| st_now := st_now st + dt; st_wake := st_wake st; st_next := st_next st; st_cl := st_cl st; st_sv := st_sv st;
+        st_pend := st_pend st; st_busy := st_busy st;
+        st_hz := st_hz st; st_done := st_done st; st_issued := st_issued st; st_sent := st_sent st;
+        st_applied := st_applied st |}, 4, [])
   | OCli c => cli_step st c
   end.
 
@@ -527,7 +542,7 @@ Definition run (st : state) (ops : list op) : state :=
 
 Definition init_client : client := {| k_closed := false; k_out := []; k_c2s := []; k_s2c := [] |}.
 Definition init_state (ncl : N) : state :=
-  {| st_now := START_US; st_next := 0; st_cl := fun _ => init_client;
+  {| st_now := START_US; st_wake := START_US; st_next := 0; st_cl := fun _ => init_client;
      st_sv := {| sv_unis := []; sv_gc := []; sv_prefs := []; sv_cdata := []; sv_alive := fun c => c <? ncl |};
      st_pend := []; st_busy := false; st_hz := false; st_done := []; st_issued := []; st_sent := []; st_applied := [] |}.
 
